@@ -72,12 +72,14 @@ struct FaultySink {
     k: usize,
     mode: u8,
     m: usize,
+    injected: bool,
 }
 
 impl Write for FaultySink {
     fn write(&mut self, buf: &[u8]) -> std::io::Result<usize> {
         self.calls += 1;
         if self.calls == self.k && !buf.is_empty() {
+            self.injected = self.mode == 2 || (self.mode == 1 && self.m.min(buf.len()).max(1) < buf.len());
             if self.mode == 2 {
                 return Err(std::io::Error::new(std::io::ErrorKind::Other, "injected write failure"));
             }
@@ -95,8 +97,8 @@ impl Write for FaultySink {
     }
 }
 
-fn write_with(fsm: &rufsm::fsm::Fsm, k: usize, mode: u8, m: usize) -> (Vec<u8>, bool, usize) {
-    let mut sink = FaultySink { data: Vec::new(), calls: 0, k, mode, m };
+fn write_with(fsm: &rufsm::fsm::Fsm, k: usize, mode: u8, m: usize) -> (Vec<u8>, bool, usize, bool) {
+    let mut sink = FaultySink { data: Vec::new(), calls: 0, k, mode, m, injected: false };
     let err;
     {
         let pw = DefaultProtocolWriter::new(&mut sink);
@@ -106,7 +108,8 @@ fn write_with(fsm: &rufsm::fsm::Fsm, k: usize, mode: u8, m: usize) -> (Vec<u8>, 
         err = w.writer.has_error();
     }
     let calls = sink.calls;
-    (sink.data, err, calls)
+    let injected = sink.injected;
+    (sink.data, err, calls, injected)
 }
 
 /// Job: {"id":..,"xml":".."}. Result: outcome of reading every prefix of the image ('o' ok, 'e' error, 'p' panic)
@@ -119,7 +122,7 @@ pub fn cut_job(job: &Value) -> Value {
         Ok(f) => f,
         Err(e) => return json!({"id": id, "parse_error": e}),
     };
-    let (image, werr, calls) = write_with(&fsm, 0, 0, 0);
+    let (image, werr, calls, _) = write_with(&fsm, 0, 0, 0);
     if werr {
         return json!({"id": id, "write_error": true});
     }
@@ -150,7 +153,11 @@ pub fn cut_job(job: &Value) -> Value {
         for (mode, m) in [(1u8, 1usize), (1u8, 0usize), (2u8, 0usize)] {
             let r = guarded(|| write_with(&fsm, k, mode, m));
             match r {
-                Ok((data, err, _)) => wres.push(json!([k, mode, m, data == image, err])),
+                Ok((data, err, _, injected)) => {
+                    if injected {
+                        wres.push(json!([k, mode, m, data == image, err]))
+                    }
+                }
                 Err(p) => wres.push(json!([k, mode, m, "panic", p])),
             }
         }
